@@ -377,8 +377,16 @@ class Bicomplex(object):
 #         return Bicomplex(log_m, arg_c + 2 * n * np.pi)
 
     def arcsin(self):
+        # arcsin(w) = arcsin(z1) + arcsin(d) for w = z1 + j*z2, where d = w*sqrt(1 - z1**2) - z1*sqrt(1 - w**2)
+        # = j*z2 * (sqrt(1 - z1**2) + z1*(2*z1 + j*z2) / (sqrt(1 - z1**2) + sqrt(1 - w**2))) is small and is formed without
+        # cancellation. For small d: arcsin(d) = -j*log(j*d + sqrt(1 - d**2)) = -j*log1p(j*d - d**2 / (1 + sqrt(1 - d**2))),
+        # which keeps the relative accuracy of the z2-part.
         J = Bicomplex(0, 1)
-        return -J * ((J * self + (1 - self ** 2) ** 0.5).log())
+        z1, jz2 = self.z1, Bicomplex(0, self.z2)
+        cos1 = np.sqrt(1 - z1 * z1)
+        d = jz2 * (cos1 + z1 * (2 * z1 + jz2) / (cos1 + (1 - self * self) ** 0.5))
+        small = -J * ((J * d - d * d / (1 + (1 - d * d) ** 0.5)).log1p())
+        return Bicomplex(np.arcsin(z1) + small.z1, small.z2)
 
     def arccos(self):
         return np.pi / 2 - self.arcsin()
